@@ -103,6 +103,9 @@ func RandCase(r *rand.Rand, kind string) *Case {
 			continue
 		}
 		e := RandEl(r, rule)
+		if PeerCapable(kind, rule) && r.Intn(5) == 0 {
+			e.P = "peer" // imported element in the same list as local ones
+		}
 		if shareNames {
 			e.K = 1 + r.Intn(3)
 		}
@@ -163,4 +166,15 @@ func RandBehaviour(r *rand.Rand) ExBehaviour {
 	}
 	b.Ops = append(b.Ops, ExOp{Op: "resolve", API: "token"}, ExOp{Op: "resolve", API: "meta"})
 	return b
+}
+
+// PeerCapable: element types that carry a PeerName which the filter must put into the authorizer context.
+func PeerCapable(kind, rule string) bool {
+	switch rule {
+	case "check", "svcnode", "csn":
+		return true
+	case "node":
+		return kind != "IndexedCoordinates"
+	}
+	return false
 }
